@@ -710,9 +710,12 @@ func runC31(c *Ctx) {
 		// used by advanceFrame on the received code, failing edge → protocol error
 		af := w.Func("internal/websocket", "(*Conn).advanceFrame")
 		if af != nil {
-			calls := CallsIn(af, false, w.calleeFn(pred))
+			// in advanceFrame itself or in a helper it calls for the close frame
+			dvAF := w.Deep(af, 2)
+			calls := dvAF.Calls(w.calleeFn(pred))
 			c.Anchor("C31.R1", "advanceFrame validates the received close code", len(calls) == 1)
 			for _, ci := range calls {
+				af := ci.Parent()
 				v := ci.Value()
 				okE := false
 				if v != nil {
